@@ -138,7 +138,9 @@ def order_tokens(tokens: list):
         else:
             n_operators += 1 if t.type == TokenType.Op1 else 2
 
-            while operators:
+            # A prefix (unary) operator has no left operand yet: it must never
+            # flush pending operators, only binary operators do
+            while operators and t.type != TokenType.Op1:
                 if t.priority <= operators[-1].priority:
                     operands.append(operators.pop())
                 else:
